@@ -124,7 +124,7 @@ func (e *engine) Generate(seed uint64, idx int, tier string, avoid []harness.Fin
 		for i := 0; i < c.R; i++ {
 			c.Exits = append(c.Exits, []string{"normal", "normal", "return", "error", "interrupt"}[r.Intn(5)])
 		}
-		c.IntAt = 1 + r.Intn(12)
+		c.IntAt = 1 + r.Intn(10*c.Iter+4)
 		c.Nested = r.Pct(35)
 	case x < 85:
 		c.Scen = "s3"
@@ -132,7 +132,10 @@ func (e *engine) Generate(seed uint64, idx int, tier string, avoid []harness.Fin
 		c.Iter = 1 + r.Intn(4)
 		c.Kind = []string{"clos", "flavor", "hash"}[r.Intn(3)]
 		c.Resync = c.Kind != "hash" && r.Pct(40)
-	case x < 92:
+	case x < 89:
+		c.Scen = "s6"
+		c.R = 2 + r.Intn(3)
+	case x < 94:
 		c.Scen = "s5"
 		c.R = 1 + r.Intn(3) // calling routines
 		c.Iter = 1 + r.Intn(4)
@@ -219,12 +222,16 @@ func (c *Case) program(sfx string) program {
 			case "error":
 				crit = fmt.Sprintf("(ignore-errors (with-mutex-lock m %s (error \"leaving by error\")))", body)
 			case "interrupt":
-				// the interrupt (if it lands here) is recovered outside the lock
-				crit = fmt.Sprintf("(ignore-errors (with-mutex-lock m (sim-emit \"enter\" %d) (sim-emit \"work\" %d) (setq n (+ n 1)) (sim-emit \"exit\" %d)))", t, t, t)
+				crit = fmt.Sprintf("(with-mutex-lock m (sim-emit \"enter\" %d) (sim-emit \"work\" %d) (setq n (+ n 1)) (sim-emit \"exit\" %d))", t, t, t)
 			default:
 				crit = fmt.Sprintf("(with-mutex-lock m %s)", body)
 			}
-			fmt.Fprintf(&b, " (run (progn (dotimes (i %d) %s) (channel-push fin %d)))\n", c.Iter, crit, t)
+			if c.Exits[t] == "interrupt" {
+				// the interrupt may land anywhere in the loop; it ends the loop
+				fmt.Fprintf(&b, " (run (progn (ignore-errors (sim-emit \"guard-on\" %d) (dotimes (i %d) %s) (sim-emit \"guard-off\" %d)) (channel-push fin %d)))\n", t, c.Iter, crit, t, t)
+			} else {
+				fmt.Fprintf(&b, " (run (progn (dotimes (i %d) %s) (channel-push fin %d)))\n", c.Iter, crit, t)
+			}
 		}
 		extra := 0
 		if c.Nested {
@@ -291,6 +298,16 @@ func (c *Case) program(sfx string) program {
 		}
 		b.WriteString(" nil)\n")
 		return program{setup: setup.String(), main: b.String()}
+	}
+	if c.Scen == "s6" {
+		// Routines create functions that refer to a global variable which is
+		// only defined afterwards: the package's variable table is shared.
+		b.WriteString("(let ((fch (make-channel 16)) (fs nil))\n")
+		for t := 0; t < c.R; t++ {
+			fmt.Fprintf(&b, " (run (channel-push fch (lambda (x) (+ x %d) *late%s*)))\n", t, sfx)
+		}
+		fmt.Fprintf(&b, " (dotimes (i %d) (setq fs (cons (channel-pop fch) fs)))\n (defvar *late%s* 7)\n (dolist (f fs) (sim-emit \"late\" (funcall f 0)))\n (setq *late%s* 8)\n (dolist (f fs) (sim-emit \"late\" (funcall f 0)))\n nil)\n", c.R, sfx, sfx)
+		return program{main: b.String()}
 	}
 	if c.Scen == "s5" {
 		// One routine redefines a method of a generic function that the
@@ -400,29 +417,28 @@ func (c *Case) exec(main string, setup string, sfx string, solo bool) runOut {
 	cfg := sched.Config{Policy: c.Policy, SwitchPct: c.SwitchPct, YieldPct: c.YieldPct, PCTDepth: c.PCTDepth,
 		PCTHorizon: 400 * size, TimeJumpPct: c.TimeJumpPct, Salt: c.Salt, Budget: 4000*size + 60000}
 	var out runOut
-	intTask, intDone, insideCS, csYields := -1, false, -1, 0
+	intTask, intDone, intCalls, guarded := -1, false, 0, false
 	if c.Scen == "s2" && !solo {
-		// The interrupt goes to the first routine whose exit kind is
-		// "interrupt", at the IntAt-th evaluation step it makes inside its
-		// critical section (where ignore-errors around the lock catches it;
-		// an interrupt elsewhere would simply end the routine, which is not
-		// what C17 is about).
+		// The interrupt is delivered the way swank delivers it: through
+		// Scope.InterruptCheck, at the IntAt-th time the designated routine
+		// (the first one whose exit kind is "interrupt") consults it. That
+		// routine's loop is wrapped in ignore-errors, so it survives.
 		for t, ex := range c.Exits {
 			if ex == "interrupt" {
 				intTask = t + 1 // routines are tasks 1..R in creation order
 				break
 			}
 		}
-		cfg.OnYield = func(task int, site string) {
-			if task != intTask || intDone || insideCS != task || !strings.HasPrefix(site, "function.go") {
+		scope.InterruptCheck = func() {
+			if out.s == nil || out.s.CurID() != intTask || intDone || !guarded {
 				return
 			}
-			csYields++
-			if csYields == c.IntAt {
+			intCalls++
+			if intCalls == c.IntAt {
 				intDone = true
-				out.marks = append(out.marks, mark{seq: out.s.Seq(), task: task, text: fmt.Sprintf("interrupt %d", task), at: out.s.Elapsed()})
-				out.s.Emit("interrupt", fmt.Sprint(task))
-				slip.ErrorPanic(scope, 0, "Keyboard interrupt")
+				out.marks = append(out.marks, mark{seq: out.s.Seq(), task: intTask, text: fmt.Sprintf("interrupt %d", intTask), at: out.s.Elapsed()})
+				out.s.Emit("interrupt", fmt.Sprint(intTask))
+				panic(&slip.Panic{Message: "Keyboard interrupt"})
 			}
 		}
 	}
@@ -431,10 +447,12 @@ func (c *Case) exec(main string, setup string, sfx string, solo bool) runOut {
 	out.tp = tp
 	lw := &lispsim.World{S: s, OnEmit: func(task int, text string) {
 		out.marks = append(out.marks, mark{seq: s.Seq(), task: task, text: text, at: s.Elapsed()})
-		if strings.HasPrefix(text, "enter ") {
-			insideCS = task
-		} else if strings.HasPrefix(text, "exit ") {
-			insideCS = -1
+		if task == intTask {
+			if strings.HasPrefix(text, "guard-on") {
+				guarded = true // from here on ignore-errors catches the interrupt
+			} else if strings.HasPrefix(text, "guard-off") {
+				guarded = false
+			}
 		}
 	}}
 	lispsim.Begin(lw)
@@ -517,6 +535,23 @@ func (e *engine) Execute(raw json.RawMessage) (vd harness.Verdict) {
 		v = c.judgeS4(out, p, sfx, &vd)
 	case "s5":
 		v = c.judgeS5(out)
+	case "s6":
+		n := 0
+		for _, m := range out.marks {
+			if f := fields(m.text); f[0] == "late" {
+				n++
+				want := "7"
+				if n > c.R {
+					want = "8"
+				}
+				if len(f) != 2 || f[1] != want {
+					v = viol("stale-variable", "a function created by a routine before the global was defined returned %s after (defvar/setq ... %s", strings.Join(f[1:], " "), want)
+				}
+			}
+		}
+		if v == nil && n != 2*c.R {
+			v = viol("harness", "expected %d reports, got %d", 2*c.R, n)
+		}
 	}
 	if v != nil {
 		pin(v)
@@ -636,7 +671,13 @@ func (c *Case) judgeS2(out runOut) *harness.Violation {
 	if c.Nested {
 		want += 2
 	}
-	if enters != want {
+	interrupted := false
+	for _, m := range out.marks {
+		if strings.HasPrefix(m.text, "interrupt") {
+			interrupted = true
+		}
+	}
+	if enters != want && !(interrupted && enters < want) {
 		return viol("lost-iteration", "%d critical sections were entered, expected %d", enters, want)
 	}
 	return nil
